@@ -334,4 +334,14 @@ def run(R, tier):
     # public re-exports used by the derive and by contrib resolve to the util functions
     R.trust("core::iter::Iterator::all / rposition, slice::split_at and slice equality behave as documented")
 
+    # ---- R03.5 candidates of the maximal length reach the matcher -------------------------------------------------------------
+    # The property quantifies over candidates up to 12 bytes; a lexer that refuses a 12-character mnemonic or character
+    # datum takes those candidates away before they are compared (named rows of the element tables, see C04/R04.8).
+    from . import lexer as LX
+    tab, span_ = LX.element_table(("mnemonic", "chardata"), False)
+    for kind, inputs in (("mnemonic", [b"ABCDEFGHIJKL", b"ABCDEFGHIJKL:X", b"*ABCDEFGHIJK", b"abcdefghijkl;"]), ("chardata", [b"ABCDEFGHIJKL", b"ABCDEFGHIJKL ,"])):
+        rows = {d: (g, e) for d, g, e in tab[kind]}
+        missing = [d for d in inputs if d not in rows]
+        bad = ["%r: lexed as %s, expected %s" % (d, rows[d][0], rows[d][1]) for d in inputs if d in rows and rows[d][0] != rows[d][1]]
+        R.check(not bad and not missing, "R03.5", "max-length:" + kind, "a 12-character %s is handed on whole" % ("header mnemonic" if kind == "mnemonic" else "character datum"), "; ".join(bad[:3]) or "rows missing: %r" % missing, where=span_)
 
